@@ -607,6 +607,33 @@ pub fn case(seed: u64, st: &mut Stats) {
             }
         }
     }
+    // (a') fault-free lines of the extended class (negative-number / hyphen values, low-index
+    // multiples, precedence settings): no fault injection there, but "inputs that break no rule
+    // are not rejected" holds all the same
+    if rng.chance(1, 3) {
+        let mut o2 = ConvOpts::full();
+        o2.extended = true;
+        let spec2 = conv_cmd(&mut rng, &o2);
+        if let Ok(cmd2) = gate(&spec2) {
+            for _ in 0..3 {
+                let intent = gen_intent(&mut rng, &spec2, &io);
+                let sty = Style::random(&mut rng);
+                let r = render(&mut rng, &spec2, &intent, &sty);
+                st.eval();
+                match catch(|| cmd2.clone().try_get_matches_from(r.argv.clone())) {
+                    Err(p) => st.violation(format!("panic:parse@{}", p.loc), format!("{} | argv={}", p.msg, show_argv(&r.argv))),
+                    Ok(Ok(_)) => st.count("faultfree.extended-accepted"),
+                    Ok(Err(e)) => {
+                        st.violation(
+                            format!("c10:valid-line-rejected:{:?}", e.kind()),
+                            format!("{} | argv={} | spec={}", e.render().to_string().lines().next().unwrap_or(""), show_argv(&r.argv), brief(&spec2)),
+                        );
+                        check_error_contract(st, &spec2, &r.argv, &e);
+                    }
+                }
+            }
+        }
+    }
     // (c)/(d) over hostile lines as well: suggestions and the exit contract for every error
     for _ in 0..3 {
         let argv = crate::gen::hostile_argv(&mut rng, &spec, 8);
